@@ -288,6 +288,16 @@ def custom_order_family(rng, ls=(1, 2, 3), two=True):
         specs.append(custom_order(s_, rng, "reversed" if k % 2 == 0 else "shuffled"))
     if two:
         specs.append(rand_shell(rng, rng.randint(0, 2), cs, nprim=2, nseg=1, exp_hi=20.0))
+    # two pure shells of one angular momentum with *different* declared conventions in the same basis (shells of two loads
+    # concatenated), and a pure s shell that declares the phase "-c0"
+    l = ls[0] if ls[0] >= 1 else 1
+    labs = [f"c{m}" for m in range(l + 1)] + [f"s{m}" for m in range(1, l + 1)]
+    rng.shuffle(labs)
+    twin_a = rand_shell(rng, l, cs, nprim=2, nseg=1, sph=True, exp_hi=10.0).copy(via_update=False)
+    twin_b = custom_order(rand_shell(rng, l, cs, nprim=1, nseg=1 + l % 2, sph=True, exp_hi=10.0).copy(via_update=False), rng, "shuffled")
+    twin_b = twin_b.copy(sphord=[rng.choice(["", "-"]) + x for x in labs])
+    specs += [twin_a, twin_b]
+    specs.append(ShellSpec(0, [core.snap(rng.uniform(-1, 1), 8) for _ in range(3)], [core.rand_exp(rng, 0.2, 5.0)], [[1.0]], sph=True, sphord=["-c0"]))
     return specs
 
 
